@@ -1,5 +1,5 @@
 """structural comparison of expression trees extracted from effect logs (client.expr_of)."""
-COMMUTATIVE = {"Duration::add", "cmp::max"}
+COMMUTATIVE = {"Duration::add", "cmp::max", "cmp::min", "op:BitXor", "op:BitAnd", "op:BitOr", "op:Add", "op:Mul", "op:Eq", "op:Ne"}
 
 
 def norm(t):
